@@ -1,6 +1,7 @@
 import LinOp.Core.Parse
 import LinOp.C16.Model
 import LinOp.C16.Skeleton
+import LinOp.C16.SkSem
 import LinOp.Generated.C16Consts
 /-!
 Line-protocol driver for the C16 model.
@@ -14,7 +15,8 @@ Entries are `Option Rat`, `none` = NaN (propagates through arithmetic).
 input :  `<jitter|n> <max_tries|n> <f32|f64> <settings jitter|n> <settings max_tries|n> <trace 0|1> <upper 0|1> <out 0|1> <members>`
          members: `r1c1,r1c2;r2c1,r2c2|…` (`|` between members), entries `p/q` or `nan`;
          `n` for the two settings fields = no context active, i.e. the generated defaults by dtype
-output:  `err=… calls=… warns=… added=… hist=… changed=… upper=… out=… ldl=…`
+output:  `err=… calls=… warns=… added=… hist=… changed=… upper=… out=… ldl=… sem=<ok|diff|stuck|na> semobs=<err:calls:warnings:changed:added>`
+         (`sem…`: the state-semantics interpreter `runSkeleton` applied to the EXTRACTED skeleton `Generated.C16.coreSkeleton`)
 -/
 open LinOp LinOp.C16 LinOp.Parse
 
@@ -119,6 +121,26 @@ def runCase (line : String) : String :=
       let o : Outcome Mem Fac Rat :=
         if isOp then opCholesky ops sqrtClamp1 size consts env args.upper mems else psdSafeCholesky ops consts env args mems
       let key := fun (f : Fac) => (showMem f.1, f.2)
+      -- state semantics of the EXTRACTED skeleton (`runSkeleton`, SkSem.lean) on this case, next to the model's core
+      let errS := fun (r : Except Err (List Fac)) => match r with
+        | .ok _ => "ok" | .error .nanError => "nan" | .error .notPSDError => "notpsd" | .error .unboundLocalError => "unbound"
+      let summ := fun (o : Outcome Mem Fac Rat) =>
+        (errS o.result, o.calls, o.warns.map showRat, o.work.map showMem, o.input.map showMem,
+         (match o.result with | .ok fs => fs.map key | .error _ => []), o.outBuf.map (·.map key))
+      let cargs : Args Rat := if isOp then {} else args
+      let (sem, semobs) :=
+        if isOp && size == 1 then ("na", "-")
+        else match runSkeleton ops consts.base env cargs mems LinOp.Generated.C16.coreSkeleton with
+          | none => ("stuck", "-")
+          | some oc =>
+            let chg := (List.zipWith (fun a b => showMem a != showMem b) mems oc.input).any id
+            -- function route: the extracted WRAPPER skeleton is interpreted on top (`runWrapperSk`) and compared with `psdSafeCholesky`
+            let same := if isOp then summ oc == summ (psdSafeCholeskyCore ops consts env cargs mems)
+              else match runWrapperSk ops args LinOp.Generated.C16.wrapperSkeleton oc with
+                | none => false
+                | some ow => summ ow == summ o
+            (if same then "ok" else "diff",
+             s!"{errS oc.result}:{oc.calls}:{oc.warns.length}:{if chg then 1 else 0}:{",".intercalate (List.zipWith addedOf mems oc.work)}")
       let err := match o.result with
         | .ok _ => "ok" | .error .nanError => "nan" | .error .notPSDError => "notpsd" | .error .unboundLocalError => "unbound"
       let jit := j.getD env.settingsJitter
@@ -133,7 +155,7 @@ def runCase (line : String) : String :=
         | none, _ => "none"
         | some b, .ok fs => if b.map key == fs.map key then "result" else "other"
         | some _, .error _ => "garbage"
-      s!"err={err} calls={o.calls} warns={showList showRat o.warns} added={" ".intercalate added |>.replace " " ","} hist={"/".intercalate hist} changed={if changed then 1 else 0} upper={upOk} out={outS} ldl={ldl}"
+      s!"err={err} calls={o.calls} warns={showList showRat o.warns} added={" ".intercalate added |>.replace " " ","} hist={"/".intercalate hist} changed={if changed then 1 else 0} upper={upOk} out={outS} ldl={ldl} sem={sem} semobs={semobs}"
     | _, _, _, _, _ => "bad-args"
   | _ => "bad-line"
 
